@@ -455,6 +455,31 @@ def checkCRC (st : DecSt) : TProg Outcome :=
 /-- `decodeHeader` -/
 abbrev HP := HProg Outcome ErrExit DecSt
 
+/-- The checks `decodeHeader` makes once the size byte `sb` and the remaining `size - 1` header
+    bytes `tmp` are read (protocol version, tag, CRC); fills in `st.hdr` and the running CRC. -/
+def headerCheck (st : DecSt) (sb tmp : Bytes) : Except (ErrClass × DecSt) DecSt :=
+  let size := (sb.headD 0).toNat
+  let proto := (tmp.headD 0).toNat
+  if proto / 16 > protoMajorMax then .error (.notsupported, st)
+  else
+    let pv := leNat ((tmp.drop 1).take 2)
+    let ds := leNat ((tmp.drop 3).take 4)
+    let h : Header := { st.hdr with proto := proto, profile := pv, dataSize := ds }
+    let st := { st with hdr := h }
+    if (tmp.drop 7).take 4 ≠ fitTag then .error (.format, st)
+    else
+      let h := { h with dtype := (tmp.drop 7).take 4 }
+      let crc := Crc.update (Crc.update st.crc sb) tmp
+      let st := { st with hdr := h, crc := crc }
+      if size = headerSizeNoCRC then .ok st
+      else
+        let hc := leNat ((tmp.drop 11).take 2)
+        let st := { st with hdr := { h with crc := hc } }
+        if hc = 0 then .ok st
+        else if crc ≠ 0#16 then .error (.integrity, st)
+        else .ok st
+
+/-- `decodeHeader` -/
 def decodeHeader (st : DecSt) (cont : DecSt → HP) : HP :=
   .readDirect 1
     (fun _ stop => match stop with
@@ -467,25 +492,25 @@ def decodeHeader (st : DecSt) (cont : DecSt → HP) : HP :=
       else .readDirect (size - 1)
         (fun _ stop => fail st (match stop with | .eof => .ioerr | .fault => .fault))
         (fun tmp =>
-          let proto := (tmp.headD 0).toNat
-          if proto / 16 > protoMajorMax then .done (fail st .notsupported)
-          else
-            let pv := leNat ((tmp.drop 1).take 2)
-            let ds := leNat ((tmp.drop 3).take 4)
-            let h : Header := { st.hdr with proto := proto, profile := pv, dataSize := ds }
-            let st := { st with hdr := h }
-            if (tmp.drop 7).take 4 ≠ fitTag then .done (fail st .format)
-            else
-              let h := { h with dtype := (tmp.drop 7).take 4 }
-              let crc := Crc.update (Crc.update st.crc sb) tmp
-              let st := { st with hdr := h, crc := crc }
-              if size = headerSizeNoCRC then cont st
-              else
-                let hc := leNat ((tmp.drop 11).take 2)
-                let st := { st with hdr := { h with crc := hc } }
-                if hc = 0 then cont st
-                else if crc ≠ 0#16 then .done (fail st .integrity)
-                else cont st))
+          match headerCheck st sb tmp with
+          | .error (c, st') => .done (fail st' c)
+          | .ok st' => cont st'))
+
+/-- `Header.MarshalBinary` layout with the stored CRC (14 bytes; 12 without CRC) -/
+def Header.marshal (h : Header) : Bytes :=
+  [u8' h.size, u8' h.proto] ++ natLE 2 h.profile ++ natLE 4 h.dataSize ++ h.dtype ++
+    (if h.size = headerSizeNoCRC then [] else natLE 2 h.crc)
+where u8' (n : Nat) : UInt8 := UInt8.ofNat n
+
+/-- `Header.CheckIntegrity` (the method on a Header value) -/
+def Header.checkIntegrity (h : Header) : Option ErrClass :=
+  if h.proto / 16 > protoMajorMax then some .notsupported
+  else if h.dtype ≠ fitTag then some .format
+  else if h.size = headerSizeNoCRC then none
+  else if h.size ≠ headerSizeCRC then some .format          -- illegal header size
+  else if h.crc = 0 then none
+  else if Crc.checksum h.marshal ≠ 0#16 then some .integrity
+  else none
 
 /-- zero value of `FileIdMsg` (the `new(File)` state) -/
 def zeroFileId (P : Profile) : Msg :=
